@@ -27,6 +27,7 @@ DMAX = H.P('dmax', 3)                    # results demanded: 0..DMAX
 IMAX = H.P('imax', 2)                    # integer arguments: 0..IMAX
 DEPTH = H.P('depth', 1)
 KMAX = H.P('kmax')                       # lambda constants in -1..KMAX (None: unbounded)
+SEQ = H.P('seq')                        # None: endless iterator source; n: in-memory sequence 0..n-1
 LIMIT = H.P('limit')                     # yaql.limitIterators of the engine (None: library default -1)
 ENG = yq.ENG_RAW if LIMIT is None else yq.FACTORY.create(
     options={'yaql.convertOutputData': False, 'yaql.limitIterators': LIMIT})
@@ -78,20 +79,42 @@ class Budget(Exception):
 
 class Source:
     """endless one-shot iterator 0, 1, 2, ... (or {a: n} dictionaries) that counts pulls"""
-    def __init__(self, budget, dicts=False):
+    def __init__(self, budget, dicts=False, finite=None):
         self.pulls = 0
         self.budget = budget
         self.dicts = dicts
+        self.finite = finite        # None: endless; n: the n values 0..n-1, then StopIteration
 
     def __iter__(self):
         return self
 
     def __next__(self):
+        if self.finite is not None and self.pulls >= self.finite:
+            raise StopIteration
         if self.pulls >= self.budget:
             raise Budget()
         v = self.pulls
         self.pulls += 1
         return yutils.FrozenDict(a=v) if self.dicts else v
+
+
+class SeqSource(tuple):
+    """in-memory sequence source (a tuple, so yaql sees a Sequence); its iterators count the elements handed out for
+    the report only: list overloads may copy or index it, so the count is not compared"""
+    pulls = 0
+
+    def __iter__(self):
+        for v in tuple.__iter__(self):
+            self.pulls += 1
+            yield v
+
+
+def make_source(budget, dicts, ideal):
+    if SEQ is None:
+        return Source(budget, dicts=dicts)
+    if ideal:
+        return Source(budget, dicts=dicts, finite=SEQ)
+    return SeqSource(yutils.FrozenDict(a=v) if dicts else v for v in range(SEQ))
 
 
 class Ticks:
@@ -387,7 +410,7 @@ def pull(result, sels, demand):
 
 def run_ideal(sels, demand, ints, consts, budget):
     ticks = Ticks()
-    src = Source(budget, dicts=OPS[sels[0]].dict_src)
+    src = make_source(budget, OPS[sels[0]].dict_src, True)
     args, others = stage_args(sels, ints, consts, ticks, budget)
     try:
         x = src
@@ -417,12 +440,12 @@ def pipe_text(sels):
 
 
 def run_real(sels, demand, ints, consts, budget):
-    src = Source(budget, dicts=OPS[sels[0]].dict_src)
+    src = make_source(budget, OPS[sels[0]].dict_src, False)
     if MODE == 'text':
         with H.NoTracing():
             text = pipe_text([int(s) for s in sels])
             REAL_TICKS.n = 0
-        kw = {'sd' if src.dicts else 's': src}
+        kw = {'sd' if OPS[sels[0]].dict_src else 's': src}
         others = []
         for pos in range(len(sels)):
             o = Source(budget)
@@ -481,7 +504,13 @@ def in_domain(sels, demand, ints, consts):
 def compare(real, ideal):
     if real[0] == 'raised':
         return False
-    if real[0] > ideal[0] + 1 or real[1] > ideal[1] + 1:
+    if real[1] > ideal[1] + 1:
+        return False
+    if SEQ is not None:
+        # an in-memory sequence may be copied or indexed by list overloads (list.insert, list.delete, ...): reading
+        # its elements has no effect, so only lambda applications, other sources and termination are compared there
+        return all(a <= b + 1 for a, b in zip(real[2], ideal[2]))
+    if real[0] > ideal[0] + 1:
         return False
     for a, b in zip(real[2], ideal[2]):
         if a > b + 1:
@@ -577,6 +606,29 @@ def conditions(tier, seed):
                               'imax': 1, 's2set': [NAMES.index('insert'), NAMES.index('insertMany')],
                               'probe_key': K_INSERT},
                     'bounds': '$s.where(tick($) mod 2 = $k1).insert/insertMany($i2, ...) asked for k in 0..2 results'})
+    # in-memory sequence source: a list must be consumed as lazily as an iterator (no pre-filtering, no copy through
+    # the lambda); the ideal pipeline runs over an iterator of the same values
+    for s1, o in enumerate(OPS):
+        for mode in (('api',) if quick else ('api', 'text')):
+            out.append({'name': 'seqsrc[%s|%s]' % (o.name, mode), 'func': 'h_pipe', 'timeout': 200 if quick else 600,
+                        'twin': False,
+                        'param': {'s1': s1, 'depth': 1, 'mode': mode, 'budget': budget, 'dmax': 2 if quick else 3,
+                                  'imax': 1 if quick else 2, 'kmax': 3 if quick else 5, 'seq': 5 if quick else 7},
+                        'bounds': '$s.%s with $s an in-memory tuple 0..%d whose iterators count: k in 0..%d, ints in '
+                                  '0..%d, lambda constants in -1..%d; %s' % (
+                                      o.text.replace('%d', ''), (5 if quick else 7) - 1, 2 if quick else 3,
+                                      1 if quick else 2, 3 if quick else 5, mode)})
+    # a sparse producer followed by a bounded consumer, drained past its last result (k may exceed what the consumer
+    # can deliver): a consumer that asks upstream for one result more than it hands on pays a whole scan for it
+    sparse = [NAMES.index(x) for x in ('where', 'where.mod', 'skipWhile', 'distinct.key')]
+    bounded = [NAMES.index(x) for x in ('take', 'takeWhile', 'slice', 'first', 'any', 'indexOf', 'delete')]
+    for s1 in sparse:
+        out.append({'name': 'sparse_bounded[%s]' % OPS[s1].name, 'func': 'h_pipe', 'timeout': 200 if quick else 600,
+                    'param': {'s1': s1, 'depth': 2, 'mode': 'api', 'budget': budget, 'dmax': 3, 'imax': 2,
+                              'kmax': 3 if quick else 5, 's2set': bounded},
+                    'bounds': '$s.%s.<op2>, op2 by symbolic selector among %s; k in 0..3 (beyond what op2 can deliver), '
+                              'ints in 0..2, lambda constants in -1..%d; call API'
+                              % (OPS[s1].name, [NAMES[x] for x in bounded], 3 if quick else 5)})
     # 2-operator pipelines: first fixed, second by symbolic selector (thirds of the table)
     firsts = [n for n, o in enumerate(OPS) if not o.terminal]
     thirds = [LATER[t::3] for t in range(3)]
